@@ -6,7 +6,7 @@ U = 'src/unmanaged/mod.rs'
 
 def m(id, desc, props, expect, *edits):
     return {'id': id, 'desc': desc, 'props': props, 'expect': expect,
-            'edits': [{'file': f, 'old': o, 'new': n} for f, o, n in edits]}
+            'edits': [e if isinstance(e, dict) else {'file': e[0], 'old': e[1], 'new': e[2]} for e in edits]}
 
 MUTANTS = [
     m('B01-1', 'delete permit.forget() in timeout_get', ['C01'], ['R01.2'],
@@ -358,6 +358,119 @@ MUTANTS += [
       (M, "        inner.metrics.recycle_count += 1;\n        #[cfg(not(target_arch", "        #[cfg(not(target_arch")),
     m('B13-8', 'new objects start with recycle_count 1', ['C13'], ['R13.1'],
       ('src/managed/metrics.rs', "            recycle_count: 0,", "            recycle_count: 1,")),
+]
+
+B = 'src/managed/builder.rs'
+MUTANTS += [
+    m('B05-1', '_add: permit added before the push', ['C05'], ['R05.3'],
+      (U, """        {
+            let mut queue = self.inner.queue.lock().unwrap();
+            queue.push(object);
+        }
+        let _ = self.inner.available.fetch_add(1, Ordering::Relaxed);
+        self.inner.semaphore.add_permits(1);
+    }""", """        self.inner.semaphore.add_permits(1);
+        {
+            let mut queue = self.inner.queue.lock().unwrap();
+            queue.push(object);
+        }
+        let _ = self.inner.available.fetch_add(1, Ordering::Relaxed);
+    }""")),
+    m('B05-2', 'take does not return the size slot', ['C05'], ['R05.4'],
+      (U, "            let _ = pool.size.fetch_sub(1, Ordering::Relaxed);\n            pool.size_semaphore.add_permits(1);", "            let _ = pool.size.fetch_sub(1, Ordering::Relaxed);")),
+    m('B05-3', 'try_add: NoPermits reported as Closed', ['C05'], ['R05.5'],
+      (U, "                TryAcquireError::NoPermits => (object, PoolError::Timeout),", "                TryAcquireError::NoPermits => (object, PoolError::Closed),")),
+    m('B05-4', 'From<I>: size semaphore gets len permits', ['C05'], ['R05.4'],
+      (U, "                size_semaphore: Semaphore::new(0),", "                size_semaphore: Semaphore::new(len),")),
+    m('B05-5', 'clean_up clears an open pool', ['C05'], ['R05.2'],
+      (U, "        if self.is_closed() {\n            self.clear();\n        }", "        self.clear();")),
+    m('B05-6', 'try_add publishes without a size permit on NoPermits', ['C05'], ['R05.4'],
+      (U, "                TryAcquireError::NoPermits => (object, PoolError::Timeout),\n                TryAcquireError::Closed => (object, PoolError::Closed),\n            }),", "                TryAcquireError::NoPermits => {\n                    self._add(object);\n                    return Ok(());\n                }\n                TryAcquireError::Closed => (object, PoolError::Closed),\n            }),")),
+    m('B05-7', 'Object::drop drops the object when the queue is long', ['C05'], ['R05.2'],
+      (U, "                {\n                    let mut queue = pool.queue.lock().unwrap();\n                    queue.push(obj);\n                }", "                {\n                    let mut queue = pool.queue.lock().unwrap();\n                    if queue.len() > 1_000_000 {\n                        drop(obj);\n                        return;\n                    }\n                    queue.push(obj);\n                }")),
+    m('B05-8', 'revert D5: available decremented only after success', ['C05'], ['R05.7'],
+      (U, "        let guard = GetGuard::new(&inner.available);\n        let permit = inner.semaphore.try_acquire()", "        let permit = inner.semaphore.try_acquire()"),
+      (U, "        let guard = GetGuard::new(&inner.available);\n        let permit = match (timeout, inner.config.runtime) {", "        let permit = match (timeout, inner.config.runtime) {"),
+            {'file': U, 'old': "        guard.success();\n", 'new': "        let _ = inner.available.fetch_sub(1, Ordering::Relaxed);\n", 'count': 2},
+      ),
+    m('B05-9', 'try_get acquires on the size semaphore', ['C05'], ['R05.3', 'binding'],
+      (U, "        let permit = inner.semaphore.try_acquire().map_err(|e| match e {\n            TryAcquireError::NoPermits => PoolError::Timeout,", "        let permit = inner.size_semaphore.try_acquire().map_err(|e| match e {\n            TryAcquireError::NoPermits => PoolError::Timeout,")),
+    m('B05-10', 'from_config: object semaphore starts with max_size permits', ['C05'], ['R05.4'],
+      (U, "                available: AtomicIsize::new(0),\n                semaphore: Semaphore::new(0),", "                available: AtomicIsize::new(0),\n                semaphore: Semaphore::new(config.max_size),")),
+    m('B05-11', 'try_add error loses the object (default in tuple impossible -> drop and rebuild)', ['C05'], ['R05.2', 'R05.5'],
+      (U, "    pub fn try_add(&self, object: T) -> Result<(), (T, PoolError)> {\n        match self.inner.size_semaphore.try_acquire() {", "    pub fn try_add(&self, object: T) -> Result<(), (T, PoolError)> {\n        if self.inner.size.load(Ordering::Relaxed) > 1_000_000 {\n            drop(object);\n            return Ok(());\n        }\n        match self.inner.size_semaphore.try_acquire() {")),
+    m('B05-12', 'GetGuard disarmed before the pop', ['C05'], ['R05.7'],
+      (U, "        let permit = inner.semaphore.try_acquire().map_err(|e| match e {\n            TryAcquireError::NoPermits => PoolError::Timeout,\n            TryAcquireError::Closed => PoolError::Closed,\n        })?;\n", "        let permit = inner.semaphore.try_acquire().map_err(|e| match e {\n            TryAcquireError::NoPermits => PoolError::Timeout,\n            TryAcquireError::Closed => PoolError::Closed,\n        })?;\n        guard.success();\n        let guard = GetGuard::new(&inner.available);\n        std::mem::forget(guard);\n        let guard = GetGuard(&inner.available);\n")),
+
+    m('B10-1', 'non-blocking test uses as_secs() == 0', ['C10'], ['R10.1'],
+      (M, "            Some(t) => t.as_nanos() == 0,", "            Some(t) => t.as_secs() == 0,")),
+    m('B10-2', 'apply_timeout: no runtime -> awaits the future without timeout', ['C10'], ['R10.2'],
+      (M, "        (None, Some(_)) => Err(PoolError::NoRuntimeSpecified),", "        (None, Some(_)) => future.await.map_err(Into::into),")),
+    m('B10-3', 'build() does not test recycle', ['C10'], ['R10.5'],
+      (B, "if (t.wait.is_some() || t.create.is_some() || t.recycle.is_some()) && self.runtime.is_none()", "if (t.wait.is_some() || t.create.is_some()) && self.runtime.is_none()")),
+    m('B10-4', 'unmanaged: runtime test above the zero test', ['C10'], ['R10.7'],
+      (U, """            (Some(timeout), _) if timeout.as_nanos() == 0 => {
+                inner.semaphore.try_acquire().map_err(|e| match e {
+                    TryAcquireError::NoPermits => PoolError::Timeout,
+                    TryAcquireError::Closed => PoolError::Closed,
+                })
+            }
+""", """            (Some(_), None) => Err(PoolError::NoRuntimeSpecified),
+            (Some(timeout), _) if timeout.as_nanos() == 0 => {
+                inner.semaphore.try_acquire().map_err(|e| match e {
+                    TryAcquireError::NoPermits => PoolError::Timeout,
+                    TryAcquireError::Closed => PoolError::Closed,
+                })
+            }
+""")),
+    m('B10-5', 'revert D3: recycle result collapsed with is_err()', ['C10', 'C04'], ['R10.6'],
+      (M, """        .await
+        {
+            Ok(()) => {}
+            // A recycle timeout without a runtime is a usage error and not a
+            // broken object: report it instead of discarding one idle object
+            // after the other.
+            Err(PoolError::NoRuntimeSpecified) => return Err(PoolError::NoRuntimeSpecified),
+            Err(_) => return Ok(None),
+        }
+""", """        .await
+        .is_err()
+        {
+            return Ok(None);
+        }
+"""),
+      (M, "        match apply_timeout(\n            self.inner.runtime,\n            TimeoutType::Recycle,", "        if apply_timeout(\n            self.inner.runtime,\n            TimeoutType::Recycle,")),
+    m('B10-6', 'apply_timeout reports Timeout(Wait) regardless of the type passed', ['C10'], ['R10.2'],
+      (M, "            .ok_or(PoolError::Timeout(timeout_type))?", "            .ok_or(PoolError::Timeout(TimeoutType::Wait))?")),
+    m('B10-7', 'build() rejects timeouts even with a runtime', ['C10'], ['R10.5'],
+      (B, "if (t.wait.is_some() || t.create.is_some() || t.recycle.is_some()) && self.runtime.is_none()", "if t.wait.is_some() || t.create.is_some() || t.recycle.is_some()")),
+    m('B10-8', 'getter uses pool-level wait timeout instead of the per-call one', ['C10'], ['R10.3'],
+      (M, "                TimeoutType::Wait,\n                timeouts.wait,", "                TimeoutType::Wait,\n                self.inner.config.timeouts.wait,")),
+    m('B10-9', 'non-blocking mode also for wait == None', ['C10'], ['R10.1'],
+      (M, "            None => false,\n        };\n\n        let permit", "            None => true,\n        };\n\n        let permit")),
+    m('B10-10', 'unmanaged: zero timeout waits with the runtime', ['C10'], ['R10.7'],
+      (U, "            (Some(timeout), _) if timeout.as_nanos() == 0 => {", "            (Some(timeout), None) if timeout.as_nanos() == 0 => {")),
+    m('B10-11', 'Runtime::timeout ignores the duration (1s)', ['C10'], ['R10.8'],
+      ('runtime/src/lib.rs', "Self::Tokio1 => tokio_1::time::timeout(duration, future).await.ok(),", "Self::Tokio1 => tokio_1::time::timeout(Duration::from_secs(1), future).await.ok(),")),
+    m('B10-12', 'apply_timeout polls the future once before reporting NoRuntimeSpecified', ['C10'], ['R10.2'],
+      (M, "        (None, Some(_)) => Err(PoolError::NoRuntimeSpecified),", "        (None, Some(_)) => {\n            let _ = future.await;\n            Err(PoolError::NoRuntimeSpecified)\n        }")),
+
+    m('B12-1', 'unmanaged close: clear before closing the semaphores', ['C12'], ['R12.2'],
+      (U, "        self.inner.semaphore.close();\n        self.inner.size_semaphore.close();\n        self.inner.clear();", "        self.inner.clear();\n        self.inner.semaphore.close();\n        self.inner.size_semaphore.close();")),
+    m('B12-2', 'revert D4: queue.pop().unwrap()', ['C12'], ['R12.1'],
+      (U, "            queue.pop().ok_or(PoolError::Closed)?\n        };\n        permit.forget();\n        guard.success();\n        Ok(Object {\n            pool: Arc::downgrade(&self.inner),\n            obj: Some(obj),\n        })\n    }\n\n    /// Retrieves an [`Object`] from this [`Pool`] using a different `timeout`", "            queue.pop().unwrap()\n        };\n        permit.forget();\n        guard.success();\n        Ok(Object {\n            pool: Arc::downgrade(&self.inner),\n            obj: Some(obj),\n        })\n    }\n\n    /// Retrieves an [`Object`] from this [`Pool`] using a different `timeout`")),
+    m('B12-3', 'close does not close the size semaphore', ['C12', 'C05'], ['R12.2'],
+      (U, "        self.inner.semaphore.close();\n        self.inner.size_semaphore.close();\n        self.inner.clear();", "        self.inner.semaphore.close();\n        self.inner.clear();")),
+    m('B12-4', 'try_get: Closed reported as Timeout', ['C12'], ['R12.3'],
+      (U, "        let permit = inner.semaphore.try_acquire().map_err(|e| match e {\n            TryAcquireError::NoPermits => PoolError::Timeout,\n            TryAcquireError::Closed => PoolError::Closed,", "        let permit = inner.semaphore.try_acquire().map_err(|e| match e {\n            TryAcquireError::NoPermits => PoolError::Timeout,\n            TryAcquireError::Closed => PoolError::Timeout,")),
+    m('B12-5', 'status() panics on a negative counter (expect)', ['C12'], ['R12.1'],
+      (U, "            available: if available > 0 { available as usize } else { 0 },", "            available: usize::try_from(available).expect(\"negative\"),")),
+    m('B12-6', 'Object::drop does not clean up a closed pool', ['C12'], ['R12.2'],
+      (U, "                pool.semaphore.add_permits(1);\n                pool.clean_up();", "                pool.semaphore.add_permits(1);")),
+    m('B12-7', 'clear() forgets to reduce size', ['C12', 'C05'], ['R12.2', 'R05.6'],
+      (U, "        let _ = self.size.fetch_sub(queue.len(), Ordering::Relaxed);\n", "")),
+    m('B12-8', 'blocking acquire failure reported as Timeout', ['C12'], ['R12.3'],
+      (U, "                .acquire()\n                .await\n                .map_err(|_| PoolError::Closed),", "                .acquire()\n                .await\n                .map_err(|_| PoolError::Timeout),")),
 ]
 
 BENIGN = [
